@@ -340,6 +340,20 @@ def run(ctx):
     tstr = st.builds(lambda s, ns: str(pd.Timestamp(s * 10 ** 9 + ns)), st.integers(lo, hi), st.sampled_from([0, 1, 999999999]))
     ctx.given("accessor", st.builds(lambda t: {"times": t}, st.lists(tstr, min_size=1, max_size=12, unique=True)), ctx.n(150, 2500), fn=f_a)
 
+    # dekadal axes (stamps on the 1st / 11th / 21st) with repeated dekads and missing dekads: sorted, looks regular, is not
+    def _dekadal(year, k0, steps, hours):
+        out, k = [], 36 * year + k0
+        for st_, h in zip(steps, hours):
+            k += st_
+            y, r = divmod(k, 36)
+            out.append(str(pd.Timestamp(year=y, month=r // 3 + 1, day=1 + 10 * (r % 3)) + pd.Timedelta(hours=h)))
+        return {"times": sorted(out)}
+
+    dk = st.integers(2, 14).flatmap(lambda n: st.builds(_dekadal, st.integers(1700, 2200), st.integers(0, 35),
+                                                        st.lists(st.sampled_from([1, 1, 1, 0, 2, 3]), min_size=n, max_size=n),
+                                                        st.lists(st.sampled_from([0, 0, 0, 6, 12]), min_size=n, max_size=n)))
+    ctx.given("accessor", dk, ctx.n(150, 2000), fn=f_a)
+
     # long daily / dekadal records across leap and non-leap years (any per-array state in the accessor shows up here)
     def _daily(year, doy, n, step, hour, rev):
         t0 = pd.Timestamp(year=year, month=1, day=1) + pd.Timedelta(days=doy, hours=hour)
